@@ -24,6 +24,8 @@ git apply SEED/patch.diff >> "$LOG" 2>&1
 unset CARGO_TARGET_DIR
 cd "$ROOT" || exit 2
 echo "== our checks against the change" | tee -a "$LOG"
+# evidence/ must describe the unchanged tree: keep it aside while checks run on the changed one
+SAVE="$(mktemp -d /dev/shm/verif-evidence.XXXXXX)"; cp -a "$ROOT/evidence/." "$SAVE/"
 git -C /repo apply "$DEST/patch.diff" >> "$LOG" 2>&1 || { echo "patch does not apply to /repo" | tee -a "$LOG"; exit 2; }
 results=""
 for c in "$@"; do
@@ -33,5 +35,6 @@ for c in "$@"; do
   results="$results $c=$rc"
 done
 git -C /repo apply -R "$DEST/patch.diff" >> "$LOG" 2>&1
+cp -a "$SAVE/." "$ROOT/evidence/"; rm -rf "$SAVE"
 git -C /repo status --short | tee -a "$LOG"
 echo "SUMMARY id=$ID demo_with=$with demo_without=$without checks:$results" | tee -a "$LOG"
